@@ -570,6 +570,11 @@ func (r *ccipChainReader) GetWrappedNativeTokenPriceUSD(
 //nolint:lll
 func (r *ccipChainReader) GetChainFeePriceUpdate(ctx context.Context, selectors []cciptypes.ChainSelector) map[cciptypes.ChainSelector]plugintypes.TimestampedBig {
 	feeUpdates := make(map[cciptypes.ChainSelector]plugintypes.TimestampedBig, len(selectors))
+	// The updates are read from the destination chain: nothing to read if this node does not support it.
+	if err := validateExtendedReaderExistence(r.contractReaders, r.destChain); err != nil {
+		r.lggr.Debugw("unable to get chain fee price updates, dest chain not supported", "err", err)
+		return feeUpdates
+	}
 	for _, chain := range selectors {
 		update := plugintypes.TimestampedUnixBig{}
 		// Read from dest chain
